@@ -194,7 +194,7 @@ def sdPreGER [One T] [Div T] [Zero K] [One K] [Add K] [Mul K] [Div K] [NatCast K
   ⟨freq, Sy.moveaxis02⟩
 
 /-- The exception behaviour of `SD_PreGER`: an empty setup list (`Y[0]`), an unknown
-    method (`freq` unbound), `vstack`/`hstack`/`np.sum`/`dot` shape errors, a non-square or
+    method (`Gyy` stays empty: `IndexError` at `Gyy[ii]`, before the unbound `freq` is reached), `vstack`/`hstack`/`np.sum`/`dot` shape errors, a non-square or
     singular reference block (`invOpt = none`), an empty frequency vector or one longer
     than the spectra; otherwise the value of `sdPreGER`. -/
 def sdPreGERchecked [One T] [Div T] [Zero K] [One K] [Add K] [Mul K] [Div K] [NatCast K]
@@ -202,7 +202,8 @@ def sdPreGERchecked [One T] [Div T] [Zero K] [One K] [Add K] [Mul K] [Div K] [Na
     (fs : T) (nxseg : Nat) (pov : T) (method : SdMethod)
     (n : Nat) (Y : Nat → Setup D) : Except String (SdOut F K) :=
   if n = 0 then .error "IndexError: list index out of range" else
-  if method = .other then .error "UnboundLocalError: freq" else
+  -- unknown method: no branch appends to `Gyy`; `Gyy[ii]` in the `Gy_refref` comprehension (fdd.py:95) fails first
+  if method = .other then .error "IndexError: list index out of range (Gyy is empty)" else
   let n_ref := (Y 0).ref.r
   let Gyy := fun ii => gyy sd fs nxseg pov method Y ii
   let inv := fun G => (invOpt G).getD G
